@@ -20,7 +20,10 @@ FORBIDDEN = re.compile(r'\b(Admitted|admit|Axiom|Axioms|Parameter|Parameters|Con
                        r'|bypass_check)\b|Unset Guard|Admit Obligations|type-in-type|impredicative-set'
                        r'|Unset Positivity|Unset Universe')
 
-# axioms of the standard library that a theorem may depend on (named in DESIGN.md section 4)
+# axioms of the standard library that a theorem may depend on (named in DESIGN.md section 4), and the only property files
+# whose theorems may: the statements that Model/F64.v's operations are IEEE-754 arithmetic on real numbers rest on Flocq's
+# correctness theorems, which use the classical axioms of Coq's Reals library.  Every other theorem must be closed.
+AXIOM_ALLOW_FILES = {'C09_ieee'}
 AXIOM_ALLOW = {
     'Classical_Prop.classic', 'ClassicalDedekindReals.sig_not_dec', 'ClassicalDedekindReals.sig_forall_dec',
     'FunctionalExtensionality.functional_extensionality_dep',
@@ -221,7 +224,8 @@ def check_proofs(prop):
             continue
         axs = re.findall(r'^([A-Za-z_][A-Za-z0-9_\.\']*)\s*:', body, re.M)
         res['axioms'][name] = axs
-        extra = [a for a in axs if a not in AXIOM_ALLOW]
+        mod = qual.get(name, '').split('.')[-2] if name in qual else ''
+        extra = [a for a in axs if not (a in AXIOM_ALLOW and mod in AXIOM_ALLOW_FILES)]
         if extra:
             res['failures'].append('theorem %s depends on %s' % (name, ', '.join(extra)))
         else:
